@@ -99,7 +99,7 @@ CONTRACTS = [
        raises=[("ValueError", "iff", "value < -(1 << 63)")],
        use=[("U64_RANGE", {"x": "old(value)"}), ("VARINT_LEN", {"v": "U64(old(value))"}),
             ("NB_BOUNDS", {"v": "U64(old(value))", "k": "result"})],
-       props=["C16", "C09"],
+       props=["C16", "C09", "C10"],
        witness={"value": 1 << 35}),
     FN("betterproto.load_varint",
        types={"stream": "stream"}, returns="tuple:int,bytes", modifies=["stream"],
